@@ -14,6 +14,7 @@ package tensor
 //@ func tensor.Shape.Clone
 //@   props C19
 //@   ensures [content] len(result) == len(s) && (forall i :: 0 <= i && i < len(s) ==> result[i] == s[i])
+//@   ensures [meta_prod] prodInts(result, len(result)) == prodInts(s, len(s))
 //@   ensures [fresh] fresh(result) && gh("lib", result.arr) == 1
 //@   ensures [src] unchanged(s)
 //@   assigns nothing
@@ -75,8 +76,8 @@ package tensor
 //@   trusted
 //@   params dt shape opts
 //@   ensures [fresh] fresh(result) && fresh(result.Raw)
-//@   ensures [storage] len(result.Raw) == prodInts(shape, len(shape)) * rsize(dt) && rkind(result.t) == rkind(dt)
-//@   ensures [clean] apIsZero(result.old) && isnil(result.old.shape) && isnil(result.old.strides) && isnil(result.transposeWith) && isnil(result.mask)
+//@   ensures [storage] len(result.Raw) == prodInts(shape, len(shape)) * rsize(dt) && rkind(result.t) == rkind(dt) && result.t == dt && len(result.Raw) / rsize(dt) == prodInts(shape, len(shape))
+//@   ensures [clean] apIsZero(result.old) && isnil(result.old.shape) && isnil(result.old.strides) && isnil(result.transposeWith) && isnil(result.mask) && result.viewOf == uintptr(0)
 //@   assigns nothing
 
 //@ func tensor.Dense.SafeT
@@ -165,3 +166,20 @@ package tensor
 //@   ensures [tw_owned] !isnil(t.transposeWith) ==> gh("lib", t.transposeWith.arr) == 1
 //@   ensures [result_tw_owned] err == nil && !isnil(retVal) && !isnil(retVal.transposeWith) ==> gh("lib", retVal.transposeWith.arr) == 1
 //@   loop 0 invariant [fill] 0 <= i && i <= dims && dims == n && len(axes) == n && fresh(axes) && gh("lib", axes.arr) == 1 && err == nil && isnil(retVal) && (forall j :: 0 <= j && j < i ==> axes[j] == j)
+
+// ---- Reshape (C13): only for equal total size, refused for non-contiguous views, never touches the elements of an
+// untransposed tensor ----
+
+//@ func tensor.Dense.Reshape
+//@   props C13
+//@   config frame any
+//@   requires [dims] forall i :: 0 <= i && i < len(dims) ==> dims[i] >= 0
+//@   requires [shape_dims] forall i :: 0 <= i && i < len(t.shape) ==> t.shape[i] >= 0
+//@   requires [untransposed] apIsZero(t.old)
+//@   requires [own] libOwnedOrNil(t.shape) && libOwnedOrNil(t.strides) && (isnil(t.shape) || t.shape.arr != t.strides.arr) && (len(dims) == 0 || (dims.arr != t.shape.arr && dims.arr != t.strides.arr))
+//@   ensures [size_mismatch] old(prodInts(t.shape, len(t.shape))) != prodInts(dims, len(dims)) ==> result != nil
+//@   ensures [view_refused] old(t.viewOf != uintptr(0) && (t.AP.o & NonContiguous) != DataOrder(0)) ==> result != nil
+//@   ensures [refusal_is_pure] old(prodInts(t.shape, len(t.shape))) != prodInts(dims, len(dims)) || old(t.viewOf != uintptr(0) && (t.AP.o & NonContiguous) != DataOrder(0)) ==> t.shape == old(t.shape) && t.strides == old(t.strides) && unchanged(t.shape) && unchanged(t.strides) && t.Raw == old(t.Raw)
+//@   ensures [new_shape] result == nil && old(apIsZero(t.old)) && len(dims) > 0 ==> len(t.shape) == len(dims) && (forall i :: 0 <= i && i < len(dims) ==> t.shape[i] == dims[i]) && t.shape.arr != dims.arr
+//@   ensures [storage_kept] old(apIsZero(t.old)) ==> t.Raw == old(t.Raw)
+//@   ensures [caller_dims] unchanged(dims)
